@@ -14,9 +14,11 @@ holding real fits, driven through `autofit.database.open_database` / `Aggregator
     on a current database and after the first open.
 """
 import gc
+import os
 import json
 import shutil
 import sqlite3
+from pathlib import Path
 
 import numpy as np
 from sqlalchemy import event
@@ -51,6 +53,7 @@ class Rec:
     nstep = 0
     conns = []
     step_texts = set()
+    routes = {}
 
 
 @event.listens_for(Engine, "before_cursor_execute")
@@ -98,9 +101,26 @@ def observe_session(path, commit, crash_at=None):
     """one use of the file through the real API; returns (events, error or None, crashed)"""
     Rec.events, Rec.crash_at, Rec.nstep, Rec.conns = [], crash_at, 0, []
     err, crashed = None, False
+    links = []
     try:
         try:
-            session = db.open_database(str(path))
+            # an existing file is opened by file name or by URL (the documented form for other back ends):
+            # which of the two is used must not matter for an existing database
+            import zlib
+            by_url = Path(path).exists() and zlib.crc32(Path(path).name.encode()) % 2 == 0
+            if os.environ.get("C19_ROUTE"):
+                by_url = Path(path).exists() and os.environ["C19_ROUTE"] == "url"
+            Rec.routes["url" if by_url else "file-name"] = Rec.routes.get("url" if by_url else "file-name", 0) + 1
+            if by_url:
+                # (a name ending in .sqlite is always taken as a file name: the URL names a link to the same file)
+                link = Path(path).with_suffix(".db")
+                if link.exists() or link.is_symlink():
+                    link.unlink()
+                os.symlink(path, link)
+                links.append(link)
+                session = db.open_database("sqlite:///" + str(link))
+            else:
+                session = db.open_database(str(path))
         except Crash:
             crashed = True
             for conn in Rec.conns:
@@ -124,6 +144,8 @@ def observe_session(path, commit, crash_at=None):
             session.bind.dispose()
     finally:
         events, Rec.events, Rec.crash_at = Rec.events, None, None
+        for link in links:
+            link.unlink(missing_ok=True)
     return events, err, crashed
 
 
@@ -744,6 +766,7 @@ def run(ctx):
         for j in js:
             run_tree(ctx, w, variant, rev, 2, cfg, crash=j, smoke="none")
     ctx.notes["exhaustive"] = bool(thorough)
+    ctx.notes["open_routes"] = Rec.routes
     ctx.notes["history_depth"] = depth
     ctx.notes["failure_counts"] = dict(w.fail_counts)
 
